@@ -49,6 +49,7 @@ type Ticker struct {
 	next     time.Duration
 	stopped  bool
 	id       int
+	oneShot  bool // a timer: fires once (the value stays in the 1-buffered channel until received), then waits for Reset
 }
 
 // Config shapes the schedule space of one run.
@@ -261,11 +262,36 @@ func (s *Sim) NewTicker(d time.Duration) *Ticker {
 	return tk
 }
 
-// Stop stops the ticker.
-func (tk *Ticker) Stop() { tk.stopped = true }
+// NewTimer registers a simulated one-shot timer (time.Timer): it fires once, d of simulated time from now,
+// and is armed again only by ResetTimer.
+func (s *Sim) NewTimer(d time.Duration) *Ticker {
+	tk := &Ticker{C: make(chan time.Time, 1), interval: d, oneShot: true}
+	s.Park("newtimer", nil, func() {
+		tk.id = len(s.tickers)
+		tk.next = s.now + d
+		s.tickers = append(s.tickers, tk)
+	})
+	return tk
+}
+
+// Stop stops the ticker (timer); it reports whether it was armed.
+func (tk *Ticker) Stop() bool {
+	was := !tk.stopped
+	tk.stopped = true
+	return was
+}
 
 // Reset changes the interval.
 func (tk *Ticker) Reset(d time.Duration) { tk.interval = d }
+
+// ResetTimer re-arms a one-shot timer to fire d of simulated time from now; it reports whether it was armed.
+func (s *Sim) ResetTimer(tk *Ticker, d time.Duration) bool {
+	was := !tk.stopped
+	tk.interval = d
+	tk.next = s.now + d
+	tk.stopped = false
+	return was
+}
 
 func (s *Sim) draw(n int) int {
 	if n <= 1 {
@@ -335,6 +361,9 @@ func (s *Sim) tick() {
 		s.now = best.next
 	}
 	best.next = s.now + best.interval
+	if best.oneShot {
+		best.stopped = true
+	}
 	select {
 	case best.C <- time.Unix(0, 0).Add(s.now):
 		s.Ticks++
